@@ -18,7 +18,7 @@ type URL struct {
 var specialSchemes = map[string]int{"ftp": 21, "file": -1, "http": 80, "https": 443, "ws": 80, "wss": 443}
 
 func IsSpecialScheme(s string) bool { _, ok := specialSchemes[s]; return ok }
-func (u *URL) IsSpecial() bool        { return IsSpecialScheme(u.Scheme) }
+func (u *URL) IsSpecial() bool      { return IsSpecialScheme(u.Scheme) }
 
 func (u *URL) Clone() *URL {
 	c := *u
